@@ -1,6 +1,7 @@
 import HpxVerif.Model.Ring
 import HpxVerif.Lemmas.NumReal
 import HpxVerif.Lemmas.RingReal4
+import HpxVerif.Lemmas.SqrtApprox4
 
 set_option autoImplicit false   -- an unknown identifier in a statement is an error, never a new variable
 
@@ -203,5 +204,10 @@ theorem ring_hash_pole (debug : Bool) {n q : Nat} (hn : 1 ≤ n) (hn30 : n < 2 ^
 
 
 end RingPlane
+
+/-- **the ring-index hypothesis of the theorems above holds for every `nside ≤ 2^29`** (power of two or not): the
+    `f64` estimate followed by the integer correction loops is the exact polar ring index (from the accuracy theorem of
+    the square-root estimate, C10 `sqrt_estimate_accuracy`) -/
+theorem ring_index_exact (n : Nat) (hn : n ≤ 2 ^ 29) : Hpx.RingReal.RingIndexExact n := Hpx.SqrtApprox.ringIndexExact n hn
 
 end Hpx.C11
